@@ -144,6 +144,11 @@ def run_one(ck, prog):
                         lhs = strip_casts(e[2])
                         if head_kind == "neg" and isinstance(lhs, tuple) and lhs[0] == "call" and (lhs[1] or "").endswith("usize>::wrapping_neg") and mentions(lhs, c.prov, lambda z: z[0] in ("param", "var") and z[1] == 1):
                             found = True
+                        # the same quantity without the negation: (W - (dest & MASK)) & MASK with W = MASK + 1
+                        if head_kind == "neg" and isinstance(lhs, tuple) and lhs[0] == "bin" and lhs[1] == "Sub" and fold(lhs[2]) == MK + 1:
+                            inner = strip_casts(lhs[3])
+                            if isinstance(inner, tuple) and inner[0] == "bin" and inner[1] == "BitAnd" and MK in (fold(inner[2]), fold(inner[3])) and mentions(inner, c.prov, lambda z: z[0] in ("param", "var") and z[1] == 1):
+                                found = True
                         if head_kind == "end" and mentions(lhs, c.prov, lambda z: z[0] == "call" and (z[1] or "").endswith("::add")) and not mentions(lhs, c.prov, lambda z: z[0] == "call" and (z[1] or "").endswith("wrapping_neg")):
                             found = True
         ck.ob("C08.3", f"{nm}|head-length", found, fn=fn["path"], detail=("the unaligned head must be (-dest) & WORD_MASK bytes" if head_kind == "neg" else "the unaligned tail (copied first when going backward) must be dest_end & WORD_MASK bytes"))
